@@ -51,14 +51,28 @@ def scriptK2 : Nat → Cb → Nat → ScriptEnt
 
 def progK2 : Prog := { cc := asciiClass, screens := screens3, screenScript := scriptK2 }
 
-/-- **K3**: while the modal screen 1 is on top, a `CloseScreenSignal` of another screen (2) is
-dispatched: `close_screen` pops screen 1 and *then* raises `RenderUnexpectedError` -/
+/-- **K3**: the modal screen 1 asks to be closed (its own `CloseScreenSignal`) and for a redraw;
+`close_screen` pops it and calls its `closed()`, which raises an ordinary exception: the rest of
+`close_screen` — `close_loop` — is skipped.  (The other variant of K3 — a `CloseScreenSignal` of *another*
+screen dispatched while the modal screen is on top — is gone since `close_screen` checks `closed_from`
+before it pops: `C04_refused_close_keeps_stack`.) -/
 def scriptK3 : Nat → Cb → Nat → ScriptEnt
+  | 0, .show, 0 => { acts := [.pushModal 1 none] }
+  | 1, .show, 0 => { acts := [.closeSig 1, .schedRedraw] }
+  | 1, .closed, 0 => { acts := [.raiseErr] }
+  | _, _, _ => {}
+
+def progK3 : Prog := { cc := asciiClass, screens := screens3, screenScript := scriptK3 }
+
+/-- the former K3 witness: while the modal screen 1 is on top, a `CloseScreenSignal` of another screen
+(2) is dispatched (and a redraw requested).  `close_screen` used to pop screen 1 and *then* raise
+`RenderUnexpectedError`; it now refuses the request with screen 1 still on the stack -/
+def scriptRefused : Nat → Cb → Nat → ScriptEnt
   | 0, .show, 0 => { acts := [.pushModal 1 none] }
   | 1, .show, 0 => { acts := [.closeSig 2, .schedRedraw] }
   | _, _, _ => {}
 
-def progK3 : Prog := { cc := asciiClass, screens := screens3, screenScript := scriptK3 }
+def progRefused : Prog := { cc := asciiClass, screens := screens3, screenScript := scriptRefused }
 
 theorem screenOnly_of (f : Nat → Cb → Nat → ScriptEnt) (hf : ∀ scr cb n, ∀ a ∈ (f scr cb n).acts, a.screenLevel = true) :
     ScreenOnly { cc := asciiClass, screens := screens3, screenScript := f } :=
@@ -85,6 +99,20 @@ theorem progK3_screenOnly : ScreenOnly progK3 := by
   split at ha <;> simp at ha
   · subst ha; rfl
   · rcases ha with rfl | rfl <;> rfl
+  · subst ha; rfl
+
+theorem progRefused_screenOnly : ScreenOnly progRefused := by
+  apply screenOnly_of
+  intro scr cb n a ha
+  unfold scriptRefused at ha
+  split at ha <;> simp at ha
+  · subst ha; rfl
+  · rcases ha with rfl | rfl <;> rfl
+
+theorem progRefused_closedSilent : ClosedSilent progRefused := by
+  intro scr n
+  show (scriptRefused scr .closed n).acts = []
+  unfold scriptRefused; split <;> first | rfl | (rename_i h; cases h)
 
 theorem progModal_closedSilent : ClosedSilent progModal := by
   intro scr n
@@ -96,10 +124,13 @@ theorem progK2_closedSilent : ClosedSilent progK2 := by
   show (scriptK2 scr .closed n).acts = []
   unfold scriptK2; split <;> first | rfl | (rename_i h; cases h)
 
-theorem progK3_closedSilent : ClosedSilent progK3 := by
-  intro scr n
-  show (scriptK3 scr .closed n).acts = []
-  unfold scriptK3; split <;> first | rfl | (rename_i h; cases h)
+/-- the `closed()` callbacks of `progK3` call no library API: the only thing one of them does is raise -/
+theorem progK3_closedNoApi : ClosedNoApi progK3 := by
+  intro scr n a ha
+  have ha' : a ∈ (scriptK3 scr .closed n).acts := ha
+  unfold scriptK3 at ha'
+  split at ha' <;> simp at ha'
+  all_goals first | exact ha' | (rename_i h; cases h)
 
 def entry0 : Entry := { eid := 0, screen := 0, args := none, modal := false }
 def entry1 : Entry := { eid := 1, screen := 1, args := none, modal := true }
@@ -127,13 +158,25 @@ theorem k2_check :
       decide (c.A.stack = [entry0]) && decide (c.L.levels.length = 2)) = true := by
   decide +kernel
 
-/-- in `progK3`, transition 74 draws the parent while the modal level is still open, after the
-`RenderUnexpectedError`; the history is quiet and well-formed but not exception-free -/
+/-- in `progK3`, transition 73 draws the parent while the modal level is still open, after the exception
+raised by the modal screen's `closed()`; nothing is pending, the history is quiet and well-formed but not
+exception-free -/
 theorem k3_check :
-    testTrans progK3 74 startSX (fun c c' =>
+    testTrans progK3 73 startSX (fun c c' =>
       decide (Tr.show entry0 ∈ newTr c c') && !decide (NoErr c) && decide (WFClose c) && decide (WFDrain c) &&
       decide (WFQuiet c) && decide (WFQuietDrain c) &&
-      decide (c.A.stack = [entry0]) && decide (c.L.levels.length = 2)) = true := by
+      decide (c.A.stack = [entry0]) && decide (c.L.levels.length = 2) &&
+      decide (pendOpens c.code = 0) && decide (pendCloses c.code = 0) && !decide c.Over &&
+      !c.L.forceQuit) = true := by
+  decide +kernel
+
+/-- in `progRefused`, transition 71 draws the modal screen again, inside its nested loop, after the
+refused close request (`RenderUnexpectedError`, handled by the application): the history is not
+exception-free, and the modal structure is intact -/
+theorem refused_check :
+    testTrans progRefused 71 startSX (fun c c' =>
+      decide (Tr.show entry1 ∈ newTr c c') && !decide (NoErr c) && decide (WFQuietDrain c) && decide (WFClose c) &&
+      decide (c.L.levels.length = 2) && decide (c.A.stack = [entry0, entry1])) = true := by
   decide +kernel
 
 /-! ### the reader-thread race: quiet at call time, not at drain time -/
